@@ -1,6 +1,16 @@
 (* Props/C09.v — string pseudo-types are detected soundly (detection order, resolution, disabled types).
-   Statements only; proofs in Proofs/StrTypes.v.  The parse/render/parse round trip of float and date/time values
-   is oracle-only (CPython dtoa, dateutil): tied by X-strtypes, not proved (DESIGN 6, C09). *)
+   Statements only; proofs in Proofs/StrTypes.v, Proofs/GrammarProps.v, Proofs/GrammarLink.v.
+   PART 1: for ANY acceptance oracle and replacement table: detection returns the first accepting registered type;
+   resolution keeps, for every member, a survivor accepting everything the member accepts (premises: the table is sound
+   for the oracle and acyclic); disabled types never appear.
+   PART 2 (grammars): int_ok / float_ok / bool_ok (Model/Grammar.v) are explicit recognisers of what CPython's int(),
+   float() and the lower-case boolean rule accept (tied by X-grammar: tools/validate_grammar.py, exhaustive short strings +
+   structured random ones, every run).  C09_int_ok_float_ok: EVERY string int() accepts is accepted by float() — the fact
+   the shipped replacement (IntString -> FloatString) relies on; C09_default_replaces_sound discharges the soundness
+   premise of PART 1 for the table regenerated from the source, C09_resolve_sound_default is the resulting premise-free
+   theorem.  Booleans are disjoint from both.
+   NOT PROVED: the parse/render/parse round trip of float and date/time VALUES (CPython dtoa, dateutil) is oracle-only;
+   the 4300-digit limit of int() is not modelled (it only shrinks what int() accepts). *)
 From Coq Require Import List Bool Arith NArith.
 From J2M.Model Require Import Base Union Merge Optimize Detect.
 From J2M.Proofs Require Import StrTypes.
@@ -94,3 +104,80 @@ Theorem C09_link_default_replaces_acyclic : acyclic StrReg.default_replaces.
 Proof. exact StrTypes.default_replaces_acyclic. Qed.
 Theorem C09_link_datetime_registration : StrReg.datetime_registration = (PDate :: PTime :: PDatetime :: nil).
 Proof. reflexivity. Qed.
+
+(* ---- PART 2: grammars ---- *)
+From J2M.Model Require Import Grammar.
+From J2M.Gen Require Import StrReg.
+From J2M.Proofs Require Import GrammarProps GrammarLink.
+
+Theorem C09_int_ok_float_ok :
+  forall (is_space_c : N -> bool) (digit_val_c : N -> option N) (s : str),
+       int_ok is_space_c digit_val_c s = true -> float_ok is_space_c digit_val_c s = true.
+Proof. exact GrammarProps.int_ok_float_ok. Qed.
+
+Theorem C09_int_or_float_is_float :
+  forall (is_space_c : N -> bool) (digit_val_c : N -> option N) (s : str),
+       int_ok is_space_c digit_val_c s || float_ok is_space_c digit_val_c s =
+       float_ok is_space_c digit_val_c s.
+Proof. exact GrammarProps.int_or_float_is_float. Qed.
+
+Theorem C09_default_replaces_sound :
+  forall (is_space_c : N -> bool) (digit_val_c : N -> option N) (lower_c : N -> str)
+         (other : pseudo -> str -> bool),
+       sound default_replaces (grammar_accepts is_space_c digit_val_c lower_c other).
+Proof. exact GrammarLink.default_replaces_sound. Qed.
+
+Theorem C09_float_not_int :
+  let i := int_ok no_space no_digit in
+       let f := float_ok no_space no_digit in
+       (f (49%N :: 46%N :: 53%N :: nil) = true /\ i (49%N :: 46%N :: 53%N :: nil) = false) /\
+       (f (49%N :: 101%N :: 51%N :: nil) = true /\ i (49%N :: 101%N :: 51%N :: nil) = false) /\
+       (f (105%N :: 110%N :: 102%N :: nil) = true /\ i (105%N :: 110%N :: 102%N :: nil) = false) /\
+       (f (49%N :: 46%N :: nil) = true /\ i (49%N :: 46%N :: nil) = false) /\
+       (f (46%N :: 53%N :: nil) = true /\ i (46%N :: 53%N :: nil) = false) /\
+       (f (45%N :: 78%N :: 97%N :: 78%N :: nil) = true /\ i (45%N :: 78%N :: 97%N :: 78%N :: nil) = false) /\
+       f (49%N :: 95%N :: 48%N :: 46%N :: 53%N :: 95%N :: 48%N :: nil) = true /\
+       i (49%N :: 95%N :: 48%N :: 46%N :: 53%N :: 95%N :: 48%N :: nil) = false.
+Proof. exact GrammarProps.float_not_int. Qed.
+
+Theorem C09_bool_not_int :
+  forall (is_space_c : N -> bool) (digit_val_c : N -> option N) (lower_c : N -> str),
+       (forall c : N,
+        int_alpha (norm_c is_space_c digit_val_c c) = true ->
+        ~ In 116%N (lower_c c) /\ ~ In 102%N (lower_c c)) ->
+       forall s : str, bool_ok lower_c s = true -> int_ok is_space_c digit_val_c s = false.
+Proof. exact GrammarProps.bool_not_int. Qed.
+
+Theorem C09_bool_not_float :
+  forall (is_space_c : N -> bool) (digit_val_c : N -> option N) (lower_c : N -> str),
+       (forall c : N,
+        float_alpha (norm_c is_space_c digit_val_c c) = true ->
+        lower_c c = (if (c <? 127)%N then g_lower c else c) :: nil) ->
+       forall s : str, bool_ok lower_c s = true -> float_ok is_space_c digit_val_c s = false.
+Proof. exact GrammarProps.bool_not_float. Qed.
+
+Theorem C09_int_ok_strip :
+  forall (is_space_c : N -> bool) (digit_val_c : N -> option N) (ws1 s ws2 : list N),
+       Forall (fun c : N => strip_c is_space_c digit_val_c c = true) ws1 ->
+       Forall (fun c : N => strip_c is_space_c digit_val_c c = true) ws2 ->
+       int_ok is_space_c digit_val_c (ws1 ++ s ++ ws2) = int_ok is_space_c digit_val_c s.
+Proof. exact GrammarProps.int_ok_strip. Qed.
+
+Theorem C09_float_ok_strip :
+  forall (is_space_c : N -> bool) (digit_val_c : N -> option N) (ws1 s ws2 : list N),
+       Forall (fun c : N => strip_c is_space_c digit_val_c c = true) ws1 ->
+       Forall (fun c : N => strip_c is_space_c digit_val_c c = true) ws2 ->
+       float_ok is_space_c digit_val_c (ws1 ++ s ++ ws2) = float_ok is_space_c digit_val_c s.
+Proof. exact GrammarProps.float_ok_strip. Qed.
+
+Theorem C09_resolve_sound_default :
+  forall (is_space_c : N -> bool) (digit_val_c : N -> option N) (lower_c : N -> str)
+         (other : pseudo -> str -> bool) (fuel : nat) (ps : list pseudo) (p : pseudo),
+       In p ps ->
+       exists q : pseudo,
+         In q (resolve default_replaces fuel ps) /\
+         (forall s : str,
+          grammar_accepts is_space_c digit_val_c lower_c other p s = true ->
+          grammar_accepts is_space_c digit_val_c lower_c other q s = true).
+Proof. exact GrammarLink.resolve_sound_default. Qed.
+
